@@ -73,7 +73,8 @@ namespace xsimd
             auto test = x > constants::oneotwoeps<batch_type>();
             batch_type z = select(test, self, x + sqrt(x + x + x * x));
             batch_type l1pz = log1p(z);
-            return select(test, l1pz + constants::log_2<batch_type>(), l1pz);
+            // x + sqrt(2x + x*x) rounds to -1 or above for large negative arguments: the domain error must be explicit
+            return select(self < batch_type(1.), constants::nan<batch_type>(), select(test, l1pz + constants::log_2<batch_type>(), l1pz));
         }
         template <class A, class T>
         XSIMD_INLINE batch<std::complex<T>, A> acosh(const batch<std::complex<T>, A>& z, requires_arch<generic>) noexcept
